@@ -153,7 +153,11 @@ pub fn mutate_tokens(r: &mut Rng, doc: &str, other: &str, loc: &mut Local) -> St
                 // the shape of F2: a DOCTYPE / comment / PI in the middle of a text token
                 if let Some(i) = (0..parts.len()).find(|i| !parts[*i].starts_with('<') && parts[*i].len() >= 2 && parts[*i].is_char_boundary(1)) {
                     let t = parts[i].clone();
-                    let ins = *r.pick(&["<!DOCTYPE y>", "<!--c-->", "<?p?>", "<![CDATA[z]]>", "<!DOCTYPE y [<!ENTITY q \"r\">]>"]);
+                    let ins = *r.pick(&[
+                        "<!DOCTYPE y>", "<!--c-->", "<?p?>", "<![CDATA[z]]>", "<!DOCTYPE y [<!ENTITY q \"r\">]>",
+                        // a whitespace-only piece of its own next to the DOCTYPE
+                        "<!--c--> <!DOCTYPE y>", "<![CDATA[q]]> <!DOCTYPE y>", "<?p?>\n<!DOCTYPE y>", "<!DOCTYPE y> <!--d-->", "<!--c--> <!DOCTYPE y> <!--d--> ",
+                    ]);
                     parts[i] = format!("{}{}{}", &t[..1], ins, &t[1..]);
                     if ins.starts_with("<!DOCTYPE") {
                         *loc.muts.entry("mutation.doctype_between_texts").or_insert(0) += 1;
@@ -331,7 +335,7 @@ fn run(ctx: &mut Ctx) {
         prev = doc;
     }
     // fixed regression shapes, every target, both entry points
-    for (i, d) in ["<a>x<!DOCTYPE y>z</a>", "x<!DOCTYPE y>z", "<a><![CDATA[x]]><!DOCTYPE y>z</a>", "<a>x<!DOCTYPE y><!--c-->z</a>", "<a>x<!DOCTYPE y></a>", "<a><!DOCTYPE y>z</a>", "<a>x<!DOCTYPE y [<!ENTITY e \"v\">]>&e;</a>", "<a></b>", "</a>", "<a>", "<a><a/>", "", " ", "<a xsi:nil=\"true\"/>"].iter().enumerate() {
+    for (i, d) in ["<a>x<!--c--> <!DOCTYPE y>z</a>", "<a><![CDATA[x]]> <!DOCTYPE y>z</a>", "<a>x<?p?> <!DOCTYPE y> <!--c--> z</a>", "x<!--c--> <!DOCTYPE y>z", "<a>x<!DOCTYPE y>z</a>", "x<!DOCTYPE y>z", "<a><![CDATA[x]]><!DOCTYPE y>z</a>", "<a>x<!DOCTYPE y><!--c-->z</a>", "<a>x<!DOCTYPE y></a>", "<a><!DOCTYPE y>z</a>", "<a>x<!DOCTYPE y [<!ENTITY e \"v\">]>&e;</a>", "<a></b>", "</a>", "<a>", "<a><a/>", "", " ", "<a xsi:nil=\"true\"/>"].iter().enumerate() {
         if !ctx.owns(i as u64) {
             continue;
         }
